@@ -6,7 +6,7 @@ import (
 	evmkeeper "github.com/palomachain/paloma/v2/x/evm/keeper"
 )
 
-// Needs x/evm/keeper/verif_export.go (tools/patches/c10_verif_export.patch).  With this file
+// Uses x/evm/keeper/verif_export.go (build tag verif).  With this file
 // TestC10 additionally calls transformSnapshotToCompass / isEnoughToReachConsensus directly and
 // compares them with what the public entry points (GetValsetByID, PublishValsetToChain) showed.
 func init() {
